@@ -31,7 +31,7 @@ def info(tier):
         "quantity is compared with the reference at n+1 affinely independent points + 1 random point; a model is "
         "non-trivial if it has >= 2 variables and >= 1 constraint row; distinct = canonical recipe hashes",
         "required_cells": [f"layout:{l}" for l in L.LAYOUTS] + ["sense:<=", "sense:>=", "sense:==", "objective", "bounds", "columns",
-                                                                 "extract_linear_coefficient", "extract_constant_term", "history:staged-or-batched-constraints"],
+                                                                 "extract_linear_coefficient", "extract_constant_term", "history:staged-or-batched-constraints", "tiny-scale-row"],
         "assumptions": [
             "harness self-check: the written recipe equals the drawn data in exact rational arithmetic, otherwise the run is inconclusive",
             "only models that optyx itself treats as linear are judged (completeness of LP detection is not claimed)",
@@ -161,11 +161,17 @@ def run_model(lp, rec, rng):
         for r, (s, v) in enumerate(rows):
             wantv = -v if s == ">=" else v
             rec.cmp(len(pts), "sense:" + s)
-            if np.max(np.abs(G[:, r] - wantv)) > TOL:
+            # rows of small uniform scale (a legitimate small-unit row, generated as an exact power-of-two multiple) are judged
+            # relative to their own scale: an absolute tolerance would hide a dropped 1e-9 coefficient
+            rs = float(np.max(np.abs(wantv)))
+            TOLr = TOL * rs if 0.0 < rs < 1.0 else TOL
+            if rs < 1e-3:
+                rec.cmp(1, "tiny-scale-row")
+            if np.max(np.abs(G[:, r] - wantv)) > TOLr:
                 # classify: rhs only, coefficients, or sign
-                if np.max(np.abs(G[:, r] + wantv)) <= TOL:
+                if np.max(np.abs(G[:, r] + wantv)) <= TOLr:
                     what = "row-sign-wrong"
-                elif np.max(np.abs((G[:, r] - G[0, r]) - (wantv - wantv[0]))) <= TOL:
+                elif np.max(np.abs((G[:, r] - G[0, r]) - (wantv - wantv[0]))) <= TOLr:
                     what = "rhs-wrong"
                 else:
                     what = "row-coefficients-wrong"
@@ -217,7 +223,8 @@ def run(ctx, rec):
     while n < target and not rec.out_of_time():
         layout = L.LAYOUTS[n % len(L.LAYOUTS)]
         n += 1
-        lp = L.draw_lp(rng, layout=layout, kind=rng.choice(["any", "any", "optimal", "infeasible"]), risky=(n % 4 != 0))
+        lp = L.draw_lp(rng, layout=layout, kind=rng.choice(["any", "any", "optimal", "infeasible"]), risky=(n % 4 != 0), tiny_rows=(n % 5 == 1),
+                       deep_objective=(n % 40 == 7))
         if lp["constraints"] and n % 3 == 0:
             # written in stages: the model is inspected after the first k constraints, the rest (element-wise relations arrive as
             # lists) is added afterwards; or everything is handed over as one list
